@@ -284,6 +284,10 @@ package spec
 //@   ensures a in old(t.terminals.table.dom) ==> t.terminals.table.val[a] == old(t.terminals.table.val)[a]
 //@   ensures @self-defined !(a in old(t.terminals.table.dom)) ==> fresh(t.terminals.table.val[a]) && len(defsOf(t, a)) == 1 && defsOf(t, a)[0] != nil
 //@     && defsOf(t, a)[0].Terminal == a && defsOf(t, a)[0].Value == string(a) && !defsOf(t, a)[0].IsRegex
+// the property (C07: "string literals used in rules define themselves"; C03: "a string literal always denotes its own
+// characters"): whatever the table held before, the literal a ends up with the definition a = "a". Not exported to
+// callers - it does not hold when a token NAMED like the literal's text is already in the table (known finding)
+//@   internal ensures @literal-defines-itself exists k int :: 0 <= k && k < len(defsOf(t, a)) && defsOf(t, a)[k] != nil && defsOf(t, a)[k].Value == string(a) && !defsOf(t, a)[k].IsRegex
 
 //@ func (t *SymbolTable) AddTokenTerminal(a grammar.Terminal, pos *lexer.Position)
 //@   requires tableOK(t)
